@@ -39,7 +39,7 @@ func wideMain(args []string) int {
 	}
 	w := bufio.NewWriterSize(f, 1<<20)
 	nodes := loadJSONNodes()
-	ns := []int{3, 50, 99, 100, 101, 128, 257, 1000, 1025, 5000, 70000}
+	ns := []int{3, 50, 99, 100, 101, 128, 257, 1000, 1025, 5000, 70000, 200000} // the largest: 0.4 .. 1.6 MB
 	if *big {
 		ns = append(ns, 1000000)
 	}
